@@ -26,9 +26,12 @@ BoolProds == {"LT", "LF", "and", "or", "lt", "eq", "not", "andor", "KT", "KF", "
 IxProds == {"LI0", "LI1"}
 (* listself / callself / sumself: a zero-argument recursive call `self()` as a later element / argument / operand, after a plain *)
 (* name (the earlier value is on the operand stack while the callee runs)                                                      *)
-RootProds == {"printi", "printb", "list3", "call4", "ifb", "assign2", "listidx", "map3", "mcall2", "listself", "callself", "sumself"}
+(* opidx / opidx2: `cells2[nexti()] += 5`, `cells2[nexti()] = 7` - the index of an (op-)assignment target has a side effect and is  *)
+(* evaluated exactly once (read and write go to the same slot).  The value is a literal: whether the value or the target path    *)
+(* comes first is not something the property speaks about.                                                                        *)
+RootProds == {"printi", "printb", "list3", "call4", "ifb", "assign2", "listidx", "map3", "mcall2", "listself", "callself", "sumself", "opidx", "opidx2"}
 Kids(p) ==
-    CASE p \in {"L", "LT", "LF", "LI0", "LI1", "VAR", "BUMP", "KT", "KF", "ELEM", "PUT", "FLD", "FBUMP", "listself", "callself", "sumself", "BELEM", "BFLD", "idxswap", "DIVZ"} -> <<>>
+    CASE p \in {"L", "LT", "LF", "LI0", "LI1", "VAR", "BUMP", "KT", "KF", "ELEM", "PUT", "FLD", "FBUMP", "listself", "callself", "sumself", "BELEM", "BFLD", "idxswap", "DIVZ", "opidx", "opidx2"} -> <<>>
       [] p \in {"idxcall", "rep", "repr"} -> <<"ix">>
       [] p \in {"orself", "andself"} -> <<"bool">>
       [] p \in {"add", "sub", "mul", "call2", "lt", "eq"} -> <<"int", "int">>
@@ -122,6 +125,8 @@ Parse(ts, i) ==
                                                 Ret(Bin("+", Bin("*", V("here"), I(10)), MCall(V("inner"), "len", <<>>)))>>
                          [] p = "callself" -> <<Ret(Call(V("f2"), <<V("here"), Call(Self, <<>>)>>))>>
                          [] p = "sumself" -> <<Ret(Bin("-", V("here"), Call(Self, <<>>)))>>)))
+             [] p = "opidx" -> Assign(Idx(V("cells2"), Call(V("nexti"), <<>>)), "+", I(5))
+             [] p = "opidx2" -> Assign(Idx(V("cells2"), Call(V("nexti"), <<>>)), "=", I(7))
              [] p = "mcall2" -> Print(MCall(V("box"), "add2", x))
              [] p = "call4" -> Print(Call(V("f4"), x))
              [] p = "ifb" -> IfElse(x[1], <<Print(S("then"))>>, <<Print(S("else"))>>)
@@ -130,6 +135,7 @@ Parse(ts, i) ==
 Tail2(ts) == IF ts[1] = "map3" THEN <<Print(Idx(V("mm"), S("a"))), Print(Idx(V("mm"), S("b"))), Print(MCall(V("mm"), "len", <<>>))>>
              ELSE IF ts[1] = "listidx" THEN <<Print(Idx(V("pair"), Parse(ts, 1).ix))>>
              ELSE IF ts[1] \in {"listself", "callself", "sumself"} THEN <<Print(Call(V("rz"), <<>>)), Print(V("left"))>>
+             ELSE IF ts[1] \in {"opidx", "opidx2"} THEN <<Print(V("cells2")), Print(V("ni")), Assign(Idx(V("cells2"), Call(V("nexti"), <<>>)), "-", I(1)), Print(V("cells2")), Print(V("ni"))>>
              ELSE IF ts[1] = "assign2" THEN <<Print(V("pair"))>> ELSE <<>>
 
 Prologue ==
@@ -146,6 +152,9 @@ Prologue ==
                      [n |-> "add2", ps |-> <<P("a", "int"), P("b", "int")>>, rt |-> "int",
                       b |-> <<Print(S("add2")), Ret(Bin("-", Bin("*", V("a"), I(3)), V("b")))>>]>>],
       Let("box", New("Box", <<>>)),
+      LetT("cells2", "[int...]", List(<<I(10), I(20), I(30)>>)), Let("ni", I(0)),
+      Let("nexti", Fn("nexti", <<>>, "int", <<Print(S("nexti")), Modify("ni", Bin("+", V("ni"), I(1))), Ret(Bin("-", V("ni"), I(1)))>>)),
+
       Let("mkl", Fn("mkl", <<P("n", "int")>>, "[int...]", <<Print(Bin("+", S("mkl"), V("n"))), LetT("r", "[int...]", List(<<I(40), I(41)>>)), Ret(V("r"))>>)),
       LetT("cur", "[int...]", List(<<I(1), I(2)>>)), LetT("alt", "[int...]", List(<<I(7), I(8)>>)),
       Let("swp", Fn("swp", <<>>, "int", <<Print(S("swp")), Modify("cur", V("alt")), Ret(I(0))>>)),
